@@ -87,7 +87,7 @@ PROPS = {
     },
     'C19': {
         'modules': ['Artela.Props.C19', 'Artela.Props.C19Once', 'Artela.Props.C19Flat', 'Artela.Proofs.RoseFlat'],
-        'runs': [{'layer': 'calltracer'}],
+        'runs': [{'layer': 'calltracer'}, {'layer': 'frame'}],
         'trusted_base': TB_M4,
         'assumptions': ['streams are generated from the tree grammar (depth <= 5, width <= 4, 0-3 Aspects per join point, 0-2 calls per Aspect)'],
         'partial': 'PARTIAL: proved for the nested tracer over all callback sequences (no panic, exactly-once accounting, filing rule, own result per Aspect); the flat conversion (trace addresses unique and prefix-closed, subtraces = emitted children, one entry per node) proved under PreFirst (pre-call Aspect frames precede post-call ones on every frame - necessary, witness proved; checked by the driver on every stream); the JSON rendering and the precompile filtering of the flat tracer are tied by correspondence (S ctrender, S ctflatinv, S ctflatown)',
@@ -118,7 +118,7 @@ PROPS = {
         'assumptions': ['the opcodes pass scope.Contract.Address(), which the frame model calls the frame\'s storage address (tied by the frame and journal layers)'],
     },
     'C13': {
-        'modules': ['Artela.Props.C13', 'Artela.Props.C13Frame'],
+        'modules': ['Artela.Props.C13', 'Artela.Props.C13Frame', 'Artela.Props.C13Only'],
         'runs': [{'layer': 'tracer'}, {'layer': 'frame'}],
         'trusted_base': TB_M1 + TB_M5 + ['the four balances of a transfer are read by the harness from the real StateDB before and after a real Transfer and handed to the model'],
         'assumptions': ['"equal to the real state balances" is by construction of TransferWithRecord (it reads the StateDB around the host Transfer); checked on the implementation by S balshadow'],
